@@ -498,7 +498,7 @@ pub fn run(cfg: &Cfg) -> i32 {
         groups.push((ch.to_vec(), false, "special"));
         groups.push((ch.to_vec(), true, "special"));
     }
-    let nrand = cfg.tier.pick(375u64, 6250);
+    let nrand = cfg.tier.pick(375u64, 60_000);
     for g in 0..nrand {
         let mut r = Rng::for_case(cfg.seed, "C16", g);
         let mut names: Vec<String> = Vec::new();
@@ -515,7 +515,7 @@ pub fn run(cfg: &Cfg) -> i32 {
     for (i, n) in ex.iter().chain(sp.iter()).enumerate() {
         file_names.push((n.clone(), i % 2 == 0));
     }
-    for g in 0..cfg.tier.pick(300u64, 5000) {
+    for g in 0..cfg.tier.pick(300u64, 60_000) {
         let mut r = Rng::for_case(cfg.seed, "C16-file", g);
         file_names.push((random_name(&mut r), r.bool()));
     }
